@@ -153,7 +153,13 @@ def worker(job):
         v = rnd.choice([(1 << w2) - 1, 1 << w2, (1 << w2) + 3, rnd.randrange(1 << max(w1, w2)), 0, 1])
         first = rnd.choice(["x.to_bits(%d)" % w1, "x.to_bits()", "x & x", "x >> 1", "~x", "x.assert_positive(%d)" % w1])
         second = rnd.choice(["bits = x.to_bits(%d)\nr = LinComb.from_bits(bits)\nnb = len(bits)" % w2, "x.assert_positive(%d)\nr = x\nnb = %d" % (w2, w2)])
-        src = "x = PrivVal(I[0])\ntry:\n    %s\nexcept (AssertionError, ValueError):\n    pass\n%s\n" % (first, second)
+        how = rnd.choice(["plain", "ignore", "false-guard"])
+        if how == "plain":
+            src = "x = PrivVal(I[0])\ntry:\n    %s\nexcept (AssertionError, ValueError):\n    pass\n%s\n" % (first, second)
+        elif how == "ignore":
+            src = ("import pysnark.runtime as _rt\nx = PrivVal(I[0])\n_rt.ignore_errors(True)\ntry:\n    %s\nfinally:\n    _rt.ignore_errors(False)\n%s\n" % (first, second))
+        else:
+            src = "x = PrivVal(I[0])\n@guarded(PrivValBool(0))\ndef _dead():\n    %s\n_dead()\n%s\n" % (first, second)
         out = G.run_api(G.Prog(src, [], bl, 0), [v], N, modulus=p)
         inr = 0 <= v < (1 << w2)
         R.case(cell="sequence|%s|%s" % ("narrower" if w2 < w1 else "wider-or-equal", "in" if inr else "out"), key=("seq", first, second, v, bl))
